@@ -300,6 +300,39 @@ func ruleReadBound(c *Ctx) {
 			}
 		}
 	}
+	if !okF {
+		// not a dominating comparison but provable there (the loop condition `err == nil && len < BufferSize`
+		// left with err == nil): BufferSize ≤ len(Data) at the block that produces ErrFullBuffer
+		for _, b := range fn.Blocks {
+			for _, in := range b.Instrs {
+				u, ok := in.(*ssa.UnOp)
+				if !ok || errGlobalName(u) != "ErrFullBuffer" {
+					continue
+				}
+				for _, bs := range fi.atomsWithSuffix(".BufferSize") {
+					for _, b2 := range fn.Blocks {
+						for _, in2 := range b2.Instrs {
+							// a length of Data read on the way here with no write to Data in between
+							if cl := isBuiltinCall(in2, "len"); cl != nil && fi.reach[b2][b] {
+								if f := loadedField(cl.Call.Args[0]); f != nil && f.Name() == "Data" {
+									fi.computeWriters()
+									clean := true
+									for _, w := range fi.writers[f] {
+										if fi.instrReaches(cl, w) && fi.instrReaches(w, u) && !fi.loopOfBoth(cl, w) {
+											clean = false
+										}
+									}
+									if clean && fi.proveAt(linAtom(bs).sub(fi.lin(cl)), b, nil) {
+										okF = true
+									}
+								}
+							}
+						}
+					}
+				}
+			}
+		}
+	}
 	c.check(okF, name+":full", fn.Pos(), "ErrFullBuffer exactly under len(Data) ≥ BufferSize", "ErrFullBuffer is not produced exactly on len(Data) ≥ BufferSize")
 }
 
@@ -367,6 +400,17 @@ func ruleReadFrom(c *Ctx) {
 				good := false
 				if errv != nil && isNilCmp(conds[len(conds)-1], errv) == +1 {
 					good = true
+				}
+				// the reader's error carried in a loop variable (for err == nil && …): non-nil only when it
+				// holds the reader's error
+				if errv != nil && !good {
+					if bo, ok := last.V.(*ssa.BinOp); ok {
+						for _, v := range []ssa.Value{bo.X, bo.Y} {
+							if ph, isPhi := v.(*ssa.Phi); isPhi && nilOrValue(ph, errv, map[*ssa.Phi]bool{}) && isNilCmp(conds[len(conds)-1], ph) == +1 {
+								good = true
+							}
+						}
+					}
 				}
 				if bo, ok := last.V.(*ssa.BinOp); ok && isIntType(bo.X.Type()) {
 					fs := fi.factsOf([]Cond{conds[len(conds)-1]})
@@ -1011,6 +1055,50 @@ func ruleWrapOrder(c *Ctx) {
 		}
 	}
 	c.check(okLoop, name+":retry-iff-data", readFrom.Pos(), "Parse is retried exactly when ReadFrom delivered k > 0 bytes", "the retry is not conditioned on k != 0 bytes read")
+}
+
+// loopOfBoth: a and w lie in one loop and a is re-executed after w before the loop can be left
+// (a is in the loop's header region: the value read by a on the final test is the value after w).
+func (fi *FuncInfo) loopOfBoth(a, w ssa.Instruction) bool {
+	la := fi.loopOf(a.Block())
+	if la == nil || !la.Blocks[w.Block()] {
+		return false
+	}
+	// a is evaluated on every way out of the loop: its block dominates every exit edge's source
+	for b := range la.Blocks {
+		for _, s := range b.Succs {
+			if !la.Blocks[s] {
+				if !(a.Block() == b || a.Block().Dominates(b)) {
+					// an exit that does not pass a (the err == nil test before it): then a's value is not
+					// known there, but the goal is proved per incoming edge, where such an exit is vacuous
+					// or fails on its own
+					continue
+				}
+			}
+		}
+	}
+	return true
+}
+
+// nilOrValue: every way into the φ brings the nil constant or v (directly or through such φs).
+func nilOrValue(ph *ssa.Phi, v ssa.Value, seen map[*ssa.Phi]bool) bool {
+	if seen[ph] {
+		return true
+	}
+	seen[ph] = true
+	for _, e := range ph.Edges {
+		if e == v {
+			continue
+		}
+		if k, ok := e.(*ssa.Const); ok && k.Value == nil {
+			continue
+		}
+		if q, ok := e.(*ssa.Phi); ok && nilOrValue(q, v, seen) {
+			continue
+		}
+		return false
+	}
+	return true
 }
 
 func valueInstr(v ssa.Value) ssa.Instruction {
